@@ -244,7 +244,18 @@ fn driver_html(input: &str, cuts: &[usize], o: &html5ever::ParseOpts, ctx: Optio
             Some((ns, local, attrs)) => {
                 let name = html5ever::QualName::new(None, html5ever::Namespace::from(ns.as_str()), html5ever::LocalName::from(local.as_str()));
                 let attrs = attrs.iter().map(|(k, v)| html5ever::Attribute { name: html5ever::QualName::new(None, html5ever::ns!(), html5ever::LocalName::from(k.as_str())), value: StrTendril::from_slice(v) }).collect();
-                let mut p = html5ever::parse_fragment(RcDom::default(), o.clone(), name, attrs, true);
+                // by input length, one fragment case in three goes through parse_fragment_for_element with a form element
+                // pointer (a form outside the fragment) and a context that does not allow scripting
+                // (the choice ignores a leading BOM: the discard_bom law compares X with U+FEFF + X and both must take the same entry point)
+                let sel = input.trim_start_matches('\u{feff}').len();
+                let mut p = if sel % 3 == 1 {
+                    let sink = RcDom::default();
+                    let ctx_elem = html5ever::tree_builder::create_element(&sink, name, attrs);
+                    let form = html5ever::tree_builder::create_element(&sink, html5ever::QualName::new(None, html5ever::ns!(html), html5ever::local_name!("form")), vec![]);
+                    html5ever::driver::parse_fragment_for_element(sink, o.clone(), ctx_elem, sel % 2 == 0, Some(form))
+                } else {
+                    html5ever::parse_fragment(RcDom::default(), o.clone(), name, attrs, true)
+                };
                 for c in &chunks {
                     p.process(StrTendril::from_slice(c));
                 }
